@@ -106,7 +106,8 @@ class C08(Prop):
             'positional argument (scalar or array like x) and an optional keyword argument.  Compared: '
             'D(x)[i], D(x\')[i] (bitwise: value, error_estimate, final_step) and D(x[i]) as a scalar '
             '(bitwise for the real-step methods, within 20 x the sum of the two error estimates + 4 eps|value| for the '
-            'complex-step methods).  NON-TRIVIAL iff the array has >= 2 elements and the replaced neighbours changed '
+            'complex-step methods); with extra arguments, the second call of one object at the same x with the other '
+            'argument set vs a fresh object (bitwise: value, error_estimate, final_step, f_value).  NON-TRIVIAL iff the array has >= 2 elements and the replaced neighbours changed '
             'the selected estimate (row of info.index) of at least one other element; distinct by case.')
     assumptions = ('+, -, *, / and sqrt of IEEE doubles are correctly rounded in numpy for scalars and arrays',
                    'numpy complex multiplication may differ in the last bit between scalar and array code '
@@ -235,6 +236,31 @@ class C08(Prop):
                                 'difference above the error estimate %g (k_est=%d, rounding-noise scale '
                                 '%.3g)' % (i, u, w, tol, k_est, noise), method=method, k_est=k_est,
                                 noise_explained=bool(abs(u - w) <= noise))
+        # reuse: one object called at the same x twice with different extra arguments must return, the
+        # second time, exactly what a fresh object returns for those arguments (nothing remembered
+        # from the first call - f(x), differences, steps - may enter the second result)
+        if case['a_kind'] != 'none' or case['k_kind'] != 'none':
+            rec_r = Recorder(base_function(case['template'], case['coefs'], case['d']))
+            d_r = self._derivative(nd, case, rec_r)
+            mk = lambda aa, kk: (((aa,) if case['a_kind'] != 'none' else ()),          # noqa: E731
+                                 ({'k': kk} if case['k_kind'] != 'none' else {}))
+            with warnings.catch_warnings():
+                warnings.simplefilter('ignore')
+                with ctx.lib('no-exception', 'Derivative(%s, n=%d, order=%d) called twice at x' % (
+                        method, case['n'], case['order'])):
+                    with np.errstate(all='ignore'):
+                        (ar, kw_), (ar2, kw2) = mk(a, k), mk(a2, k2)
+                        d_r(x, *ar, **kw_)
+                        vb, infob = d_r(x, *ar2, **kw2)
+            vf, infof = self._call(ctx, nd, case, x, a2, k2, 'x (fresh object, second arguments)')
+            for nm, u, w in (('value', vb, vf), ('error_estimate', infob.error_estimate, infof.error_estimate),
+                             ('final_step', infob.final_step, infof.final_step),
+                             ('f_value', infob.f_value, infof.f_value)):
+                if not np.array_equal(np.asarray(u), np.asarray(w), equal_nan=True):
+                    raise Violation('reuse', 'second call of one object at the same x with other extra arguments: '
+                                    '%s is %r, a fresh object gives %r' % (nm, np.asarray(u), np.asarray(w)),
+                                    method=method, field=nm)
+            ctx.count('reuse clause evaluated')
         if x.size >= 2:
             ncol = x.size
             r1 = np.ravel(info1.index) // ncol
